@@ -1270,7 +1270,7 @@ class FCN(object):
             batch = self.batch
         g, h = self.get_grad_hessp(x, p, batch)
         constr_grad = self.gauss_constr.get_constrain_grad()
-        constr_hessian = 0.0  # self.gauss_constr.get_constrain_hessp(p)
+        constr_hessian = np.dot(self.gauss_constr.get_constrain_hessian(), p)
         return g + constr_grad, h + constr_hessian
 
     def get_grad_hessp(self, x, p, batch):
